@@ -30,6 +30,10 @@ import (
 
 type c18Input struct {
 	Family      string `json:"family"`      // "" = OCR3 (v3) plugin, "v2" = OCR2 plugin
+	Reuse       int    `json:"reuse"`       // factory reuse: 0 = the instance under test is the factory's first; 1 = a first instance was
+	ReuseRunNs  int64  `json:"reuseRunNs"`  // built, ran reuseRunNs, was closed, and reuseGapNs later the instance under test is built on the
+	ReuseGapNs  int64  `json:"reuseGapNs"`  // SAME factory; 2 = the instance under test is built while the first is open, the first is closed
+	ReuseCfg    string `json:"reuseCfg"`    // reuseGapNs later.  reuseCfg: "same" | "diff" (off-chain config of the second instance)
 	Scenario    string `json:"scenario"`    // "close" | "panic" | "panic-close" | "hold-close"
 	Procs       int    `json:"procs"`       // GOMAXPROCS of the child (1 = cooperative, repeatable schedule)
 	CloseAtNs   int64  `json:"closeAt"`     // virtual ns after creation ("close") / after the first panic ("panic-close")
@@ -76,6 +80,9 @@ type c18Impl struct {
 	BubbleEnded     bool           `json:"bubbleEnded"`    // every goroutine of the bubble ended and the child exited 0
 	Exit            string         `json:"exit"`           // how the child ended: ok | exit:N | timeout
 	WallMs          int64          `json:"wallMs"`         // real time the child took (diagnostic only)
+	ClosePanic      string         `json:"closePanic"`     // the value Close panicked with ("" = it returned)
+	FirstClose      map[string]int `json:"firstClose"`     // factory reuse: close errors of the first instance ("panic" included)
+	Progress        int            `json:"progress"`       // check-pipeline calls of the instance under test that completed before its Close
 	Note            string         `json:"note,omitempty"`
 }
 
@@ -162,6 +169,7 @@ func c18Case(t *testing.T, in c18Input, ck func(c18Impl)) {
 		node = newC18V3Sys(t, in)
 	}
 	pr := node.probe
+	impl.FirstClose = node.firstClose
 	switch in.Scenario {
 	case "hold-close":
 		impl.Phase = "created"
@@ -223,17 +231,23 @@ func c18Case(t *testing.T, in c18Input, ck func(c18Impl)) {
 		}
 	}
 	// no check-point (file write = blocking system call = scheduling point) between here and Close
+	impl.Progress = pr.doneCount(node.progressSite)
 	impl.ClosedAtNs = int64(time.Since(pr.t0))
 	var err error
 	if in.Scenario == "close" && in.CloseAtNs == 0 {
 		// start-up races: Close on this goroutine, nothing in between
-		err = node.close()
+		err, impl.ClosePanic = c18SafeClose(node.close)
 	} else {
 		// anywhere else a Close that never returns must become a verdict: wait a bounded virtual time for it
-		done := make(chan error, 1)
-		go func() { done <- node.close() }()
+		type closed struct {
+			err error
+			pan string
+		}
+		done := make(chan closed, 1)
+		go func() { e, p := c18SafeClose(node.close); done <- closed{e, p} }()
 		select {
-		case err = <-done:
+		case c := <-done:
+			err, impl.ClosePanic = c.err, c.pan
 		case <-time.After(60 * time.Second):
 			impl.CloseCalled = true
 			impl.CloseReturned = false
@@ -272,7 +286,7 @@ func c18Case(t *testing.T, in c18Input, ck func(c18Impl)) {
 		// clean-up attempt, so that the bubble can end: a second Close reaches the services whose
 		// recoverer had not been running the first time
 		second := make(chan map[string]int, 1)
-		go func() { second <- c18CloseErrs(node.close()) }()
+		go func() { e, _ := c18SafeClose(node.close); second <- c18CloseErrs(e) }()
 		time.Sleep(12 * time.Second)
 		synctest.Wait()
 		select {
@@ -465,6 +479,37 @@ func c18Edge() []c18Input {
 			}
 		}
 	}
+	// factory reuse (libocr asks the ONE factory for a new instance on every config change): everything above in its most
+	// telling variants, on a second instance — the first closed before / after the second is built, same / different
+	// config; the second must work (pipeline reached), survive faults, and its Close must stop both instances' everything
+	for _, fam := range []string{"", "v2"} {
+		for _, reuse := range []int{1, 2} {
+			for _, cfg := range []string{"same", "diff"} {
+				base := c18Input{Family: fam, Reuse: reuse, ReuseRunNs: 2500 * c18ms, ReuseGapNs: 137 * c18ms, ReuseCfg: cfg}
+				for _, at := range []int64{2500 * c18ms, 5*c18s + 137*c18ms, 31 * c18s} {
+					in := base
+					in.Scenario, in.CloseAtNs, in.Work = "close", at, 2
+					out = append(out, in)
+				}
+				sites := []string{c18SiteLog, c18SitePipeline, c18SiteEvents, c18SiteGC}
+				if fam == "v2" {
+					sites = []string{c18SiteV2Perform, c18SiteV2Check}
+				}
+				for _, site := range sites {
+					in := base
+					in.Scenario, in.PanicSite, in.PanicAtCall, in.PanicCount = "panic", site, 2, 5
+					out = append(out, in)
+					in.Scenario, in.PanicCount, in.CloseAtNs = "panic-close", 1, 5*c18s
+					out = append(out, in)
+				}
+			}
+		}
+		// the second instance closed inside its own start-up, and built right after / long after the first was closed
+		for _, gap := range []int64{0, c18ms, 12 * c18s} {
+			out = append(out, c18Input{Family: fam, Reuse: 1, ReuseRunNs: 1500 * c18ms, ReuseGapNs: gap, ReuseCfg: "same", Scenario: "close", Yields: 1, Work: 2})
+			out = append(out, c18Input{Family: fam, Reuse: 1, ReuseRunNs: 1500 * c18ms, ReuseGapNs: gap, ReuseCfg: "diff", Scenario: "close", CloseAtNs: 3*c18s + 137*c18ms, Work: 2})
+		}
+	}
 	// the OCR2 (v2) plugin: Close at instants across its life, and while a log poll / registry call is in flight
 	for k := 0; k <= 2; k++ {
 		out = append(out, c18Input{Family: "v2", Scenario: "close", Yields: k})
@@ -493,6 +538,21 @@ func c18Edge() []c18Input {
 }
 
 func c18Gen(r *Rng) c18Input {
+	in := c18GenBase(r)
+	// factory reuse on top of whatever was generated (not for the parallel start-up children: reuse 2 needs virtual time)
+	if r.Chance(25) && in.Procs <= 1 {
+		in.Reuse = r.Range(1, 2)
+		in.ReuseRunNs = []int64{1500 * c18ms, 2500 * c18ms, 5*c18s + 137*c18ms}[r.Intn(3)]
+		in.ReuseGapNs = []int64{0, 1, c18ms, 137 * c18ms, 3 * c18s, 12 * c18s}[r.Intn(6)]
+		in.ReuseCfg = []string{"same", "diff"}[r.Intn(2)]
+		if in.Reuse == 2 && in.Scenario == "close" && in.CloseAtNs == 0 {
+			in.CloseAtNs = 1500 * c18ms
+		}
+	}
+	return in
+}
+
+func c18GenBase(r *Rng) c18Input {
 	in := c18Input{}
 	eps := []int64{-1000, -1, 0, 1, 1000, c18ms, 137 * c18ms, 500 * c18ms}
 	grid := func(max int) int64 {
